@@ -58,6 +58,10 @@ CHECKS.update({
    text="All histories up to the depth bound of local writes, remote writes, syncs and snapshot saves on a replica (three store types); for every history EVERY prefix of the replica's ordered persistence-effect log (block writes, cache puts, keystore puts) is turned into a crash image from which the database is reopened and loaded in isolation; recovered entries must include every acknowledged entry, only written entries, be closed under ancestry and show the reference state; identity unchanged and writable. Clean close/reopen cycles run on real leveldb directories.",
    note="Trusted: each effect is atomic and durable on return (property's assumption); effects are observed at the simulated cache/keystore/blockstore seams. On-disk part covers clean shutdowns only.",
    tech="exhaustive crash-point enumeration (every prefix of the persistence-effect log of every explored history) with recovery on the real implementation"),
+ "C18": dict(cat="exploration", ref="5/C18",
+   text="Exhaustive cross product on fresh worlds: store type x moment (idle, in-flight write parked at each of 6 points, in-flight replication parked at each of 5 points, in-flight Load parked in a fetch) x injection (Close, Close twice, instance Close, instance Close twice, Drop, Close then Drop) x with/without sibling database; then everything parked is released and every operation is issued on the closed object. State-based oracle at quiescence: all calls returned, no panic (worker crash attribution), surviving go-orbit-db goroutines equal the pre-open baseline, reopen+load yields all acknowledged data, Drop scoped to one database.",
+   note="Trusted: sim environment, goroutine-status quiescence, attribution of goroutines by stack frames. The moment of the injection is controlled by gates/hooks; what runs after the release is scheduler-chosen.",
+   tech="exhaustive enumeration of injection points (gated environment calls and hooked schedule points) x injections against the real implementation, state-based hang/leak detection"),
 })
 NOT_APPLICABLE = []
 ALL = ["C%02d" % i for i in range(1, 21)]
